@@ -92,7 +92,7 @@ where
     {
         self.0
             .as_ref()
-            .and_then(move |eps| {
+            .map(move |eps| {
                 let (nrows, ncols) = eps.shape_generic();
                 let mut res: Matrix<MaybeUninit<T2>, R, C, _> = Matrix::uninit(nrows, ncols);
 
@@ -109,7 +109,8 @@ where
                 // Safety: res is now fully initialized.
                 Some(unsafe { res.assume_init() })
             })
-            .map(Derivative::some)
+            // an absent derivative maps to an absent derivative, not to a failure
+            .map_or_else(|| Some(Derivative::none()), |res| res.map(Derivative::some))
     }
 
     pub fn derivative_generic(r: R, c: C, i: usize) -> Self {
